@@ -30,7 +30,7 @@ func TestGeneratedPackagesAreConsistent(t *testing.T) {
 		}
 	})
 	for _, f := range []string{FPrefixCustom, FPrefixDefault, FExtRel, FIDsGapped, FIDsNamed, FStylesAbsent, FStylesNotRID1, FMediaOddName, FHyperlink, FSmartTag, FIns, FInlineSdt,
-		FMultiT, FParaSectPr, FNestedTable, FBlockSdt, FHFRels, FCustomXML, FPicture, FMediaNoExt, FRID1Other} {
+		FMultiT, FParaSectPr, FNestedTable, FBlockSdt, FHFRels, FCustomXML, FPicture, FMediaNoExt, FRID1Other, FMediaOtherHighest, FMediaUnrelated, FMediaNotesOwned} {
 		if feats[f] == 0 {
 			t.Errorf("feature %s never generated in %d cases", f, n)
 		}
@@ -164,7 +164,7 @@ func SelfCheck(p Package) string {
 		if !bytes.Equal(pk.Parts[m.Name], m.Data) || len(m.Data) == 0 {
 			return "media " + m.Name + " not as described"
 		}
-		if m.Source == "" {
+		if m.Source == "" && !p.Has(FMediaUnrelated) {
 			return "media " + m.Name + " unreferenced"
 		}
 	}
@@ -179,7 +179,7 @@ func TestMinimal(t *testing.T) {
 
 func TestOptSwitchesFeaturesOff(t *testing.T) {
 	off := []string{FPrefixCustom, FPrefixDefault, FRPrefixCustom, FRelsPrefixed, FExtRel, FExtRelOther, FIDsGapped, FIDsNamed, FStylesAbsent, FStylesNotRID1, FStylesOddName,
-		FRID1Other, FAbsTarget, FMediaOddName, FHyperlink, FSmartTag, FIns, FInlineSdt, FFldSimple, FDel, FMultiT, FTabBr, FParaSectPr, FNestedTable, FBlockSdt, FHFRels, FCustomXML, FBinary, FUnknownDef}
+		FRID1Other, FAbsTarget, FMediaOddName, FHyperlink, FSmartTag, FIns, FInlineSdt, FFldSimple, FDel, FMultiT, FTabBr, FParaSectPr, FNestedTable, FBlockSdt, FHFRels, FCustomXML, FBinary, FUnknownDef, FMediaOtherHighest}
 	no := map[string]bool{}
 	for _, f := range off {
 		no[f] = true
